@@ -78,6 +78,14 @@ add('C11', 'E-RUN+E-SQLDRV+E-CHSQL+E-REF(reftraceql)', 'translation_validation',
     'Generated TraceQL scripts (nested and/or with parentheses, repeated terms, span./resource./dot prefixes, every operator, aggregators with units, chains of 2-4 selectors, long decimal literals) are parsed back by qryn\'s parser and sent through the real read path (GET /api/search and the v2 tags/values routes -> controller -> service -> planners -> simple and complex request processors, single-node and cluster tables). Every statement qryn issues is executed by the reference ClickHouse-subset interpreter over tables filled the way the writer fills them (missing, numeric and non-numeric values, spans on the window edges); the returned trace and span sets, the limit cut and its recency order are compared with an independent direct TraceQL evaluator under every reading the property text leaves open; a statement ClickHouse would reject, a planner panic and a non-JSON answer are violations by themselves. Violations are minimised and filed under the minimal failing shape; for {A} && {B} the answer is additionally compared with what the implemented row intersection gives, so that known defect has one key.',
     'Trusted: E-CHSQL (self-tested on a corpus of captured statements), the direct evaluator engines/reftraceql written from the property text, the table filling. Cases on which the readings disagree are probes (counted, not judged). Chains of three or more selectors never execute (known finding), so their semantics are not observed.',
     'runtime monitoring: translation validation by executing the recorded SQL against a reference interpreter and comparing with a direct evaluator', 'DESIGN §3 C11')
+add('C12', 'E-RUN+E-SQLDRV+E-RDCAT+E-RACE', 'exploration',
+    'Crash-isolated robustness fuzzing of all 35 read routes of the real reader (router, controllers, services, planners, post-processors; Loki incl. tail over a websocket, Prometheus, Tempo v1/v2, Pyroscope) on the scripted database/sql driver: grammar-generated, mutated and random-byte query texts for LogQL/PromQL/TraceQL/Pyroscope selectors, boundary values for start/end/step/limit/direction/time (zero, negative, reversed, huge, NaN/Inf, fractions, RFC3339), result sets of every statement kind in well-formed and nine hostile shapes (wrong Go types, short ids, bad payloads, fingerprint 0, inconsistent arrays), database errors at open and at row k, cancelled contexts, clients that stop reading early or mid-response. Monitors per request: process death (child process per lane, address space capped), an HTTP answer within the watchdog (a request is wedged only if none of its goroutines is running or runnable in two dumps 2 s apart), connection closed without response, driver.Rows left open, goroutine census and connection states after quiescence. A child ends itself after a confirmed leak or wedge so that leaked work is never attributed to a later case.',
+    'Trusted: the scripted driver and its classification of the statements the reader issues, the goroutine census filter, the address-space cap (8 GiB; an out-of-memory death below 1 GiB blocks is undecided). Input classes are skipped after a confirmed wedge/leak or three deaths (counted). The race-detector subset is not run for C12: a -race binary cannot start under the address-space cap.',
+    'runtime monitoring: crash-isolated fuzzing with response, goroutine-census, open-rows and connection-state monitors', 'DESIGN §3 C12')
+add('C15', 'E-RUN+E-SQLDRV+E-RDCAT', 'exploration',
+    'Scripted result sets (any number of series, any distribution of rows over series and channel batches incl. empty batches, batch boundaries inside a series, 3000+ rows, fingerprint 0, label and line contents with control bytes / quotes / invalid UTF-8, floats from 1e-300 to 1e300, integral values, NaN-free) are fed through the real reader for every document-producing endpoint (Loki streams/matrix/vector for SQL and pipeline paths, labels, label values, series; Prometheus matrix/vector/scalar/labels/series; Tempo trace JSON, search, TraceQL, tags/values v1+v2). Oracle: the concatenated response chunks are decoded strictly as exactly one JSON document (no trailing data, no duplicate keys), validated against the documented shape of that endpoint, and compared with the scripted rows: exactly one object per stream/series, every row once, timestamps and values rendered without loss, strings equal after decoding.',
+    'Trusted: the strict decoder and the per-endpoint shape validators (self-tested on hand-computed documents), the result-set generators.',
+    'runtime monitoring: response-document validation and row conservation against scripted result sets', 'DESIGN §3 C15')
 add('C13', 'E-RUN+E-SQLDRV+E-CHSQL', 'exploration',
     'The real reader (router -> controllers -> services -> planners) runs in-process on a scripted database/sql driver whose handler executes every statement with the reference interpreter over generated tables holding probe rows (at from, from+1ns, middle, to-1, indexed under the dates the writer stores), sentinel rows (1 ns, 1 s, one range bucket, 15 s, 1 day, 31 days outside on both sides, with own and shared keys), grey rows inside the widening the property allows, and rows of the other signal (one sharing a probe fingerprint). Two observers: the HTTP response (no sentinel / other-signal marker may appear, every selected probe must; the answer must equal the answer on the database minus sentinel data rows) and the interpreter\'s scan monitor (every base-table scan: no sentinel or other-type row admitted by a data-table scan, date bounds read from the WHERE must cover the probe index rows). 76 endpoint positions (Loki query_range/instant/labels/values/series/tail, Prometheus labels/values/series/query/query_range and CLokiQuerier.Select with 29 hint functions, Tempo trace/search/TraceQL/tags/values v1+v2, Pyroscope types/labels/series/selects/render-diff) x windows crossing midnight, month ends and sub-second ones x single-node and cluster layouts x reader zones UTC / America/New_York / Asia/Tokyo (one child process per zone) and writer zones for trace tag rows.',
     'Trusted: E-CHSQL incl. its per-scan admitted-row monitor, the row generators (dates as the writer stores them), the per-endpoint window semantics listed as assumptions in the evidence. A data bound narrower than the window is reported as probe-missing/data-bound (assumption recorded). Loki tail: sentinel and scan verdicts only.',
@@ -142,6 +150,7 @@ ENGINES = [
  {'name': 'E-CAT', 'path': 'harness/engines/cat', 'serves_properties': ['C18','C19'], 'kind_free_text': 'fake clickhouse.Conn with a modelled catalogue (DDL effects, ClickHouse errors, ver/settings tables, fault injection at statement i)'},
  {'name': 'E-RACE', 'path': 'harness/engines/race', 'serves_properties': ['C01','C02'], 'kind_free_text': 'race-detector report collector, de-duplication and scope classifier'},
  {'name': 'E-SQLDRV', 'path': 'harness/engines/sqldrv', 'serves_properties': ['C06','C07','C08','C09','C10','C11','C12','C13','C14','C15','C17'], 'kind_free_text': 'scripted database/sql driver behind the reader seams (statement log, scripted rows, faults, open-rows tracking) and in-process assembly of the real reader routes'},
+ {'name': 'E-RDCAT', 'path': 'harness/engines/rdcat', 'serves_properties': ['C12','C15'], 'kind_free_text': 'catalogue of the reader\'s 35 routes and 23 statement kinds with request, query-text and result-set generators (well-formed and hostile shapes) and strict response validators'},
  {'name': 'E-CHSQL', 'path': 'harness/engines/chsql', 'serves_properties': ['C07','C08','C09','C11','C13','C14','C16','C17'], 'kind_free_text': 'reference interpreter for the ClickHouse SQL subset the planners emit (oracle; self-tested against a corpus of captured statements)'},
  {'name': 'E-CHTCP', 'path': 'harness/engines/chtcp', 'serves_properties': ['C20'], 'kind_free_text': 'fake native-protocol ClickHouse TCP server (hello, ping, query log, INSERT exchange)'},
  {'name': 'E-REF logq', 'path': 'harness/engines/logq', 'serves_properties': ['C07','C08','C09','C13','C14'], 'kind_free_text': 'abstract LogQL model, direct reference evaluator, query/database generators, executor running the real planner chain over E-CHSQL'},
